@@ -7,5 +7,20 @@ def handle (fn : String) (args : List Json) : String :=
   | "_calc_checksum" => match args with
     | [a0] => (do let x0 ← Wire.decStr a0; pure (Wire.respondWith Wire.encInt (Gen.nz_bankaccount._calc_checksum x0)) : Option String).getD "badargs"
     | _ => "badargs"
+  | "compact" => match args with
+    | [a0] => (do let x0 ← Wire.decStr a0; pure (Wire.respondWith Wire.encStr (Gen.nz_bankaccount.compact x0)) : Option String).getD "badargs"
+    | _ => "badargs"
+  | "format" => match args with
+    | [a0] => (do let x0 ← Wire.decStr a0; pure (Wire.respondWith Wire.encStr (Gen.nz_bankaccount.format x0)) : Option String).getD "badargs"
+    | _ => "badargs"
+  | "info" => match args with
+    | [a0] => (do let x0 ← Wire.decStr a0; pure (Wire.respondWith (Wire.encDict Wire.encStr Wire.encStr) (Gen.nz_bankaccount.info x0)) : Option String).getD "badargs"
+    | _ => "badargs"
+  | "is_valid" => match args with
+    | [a0] => (do let x0 ← Wire.decStr a0; pure (Wire.respondWith Wire.encBool (Gen.nz_bankaccount.is_valid x0)) : Option String).getD "badargs"
+    | _ => "badargs"
+  | "validate" => match args with
+    | [a0] => (do let x0 ← Wire.decStr a0; pure (Wire.respondWith Wire.encStr (Gen.nz_bankaccount.validate x0)) : Option String).getD "badargs"
+    | _ => "badargs"
   | _ => "nofunc"
 end Driver.D_nz_bankaccount
